@@ -1,13 +1,45 @@
 """C03 — Calendar grouping partitions the data; statistics equal those of the groups.
 
-Model: lean/Ladybug/Model/Group.lean (polymorphic grouping) + Model/Stats.lean (statistics over Rat),
-on top of Model/AP.lean and Model/Cal.lean; theorems: lean/Ladybug/Props/C03.lean
-(lemmas Proofs/C03*.lean); driver: drv_c03.  Tie: correspondence (C) on the ops below.
+Model: lean/Ladybug/Model/Group.lean (polymorphic grouping) + Model/Stats.lean (statistics over Rat)
++ Model/GroupObj.lean (object state machine: `_datetimes` slot, `values =`, `coll[i] =`,
+`convert_to_culled_timestep`, refused operations), on top of Model/AP.lean and Model/Cal.lean;
+theorems: lean/Ladybug/Props/C03.lean (lemmas Proofs/C03*.lean); driver: drv_c03.
+Tie: correspondence (C) on the ops below, incl. whole operation histories compared step by step.
 
-The model describes ladybug/datacollection.py WITH fixes/C03_1..C03_5 applied (see Model/Group.lean).
+The model describes ladybug/datacollection.py WITH fixes/C03_1..C03_6 applied (see Model/Group.lean).
+
+Producers and their consumers (each consumer is exercised by the correspondence and/or the oracle, so a
+producer changed together with ONE consumer shows in the others):
+
+  _percentile                   percentile(), median, _get_percentile_function -> hourly percentile_daily /
+                                _monthly / _monthly_per_hour (_time_interval_operation) AND
+                                DailyCollection.percentile_monthly (_monthly_operation)  [oracle: order_stats,
+                                stats_of_groups, daily_month with values NOT in ascending order, histories]
+  _average / _total             average/total properties, hourly average_/total_ daily|monthly|monthly_per_hour,
+                                DailyCollection.average_/total_monthly
+  group_by_day / _month (disc)  *_daily / *_monthly of discontinuous collections; overridden (slices) in the
+                                continuous class; inherited by the immutable twins (tuples instead of lists)
+  group_by_month_per_hour       *_monthly_per_hour of both hourly classes (continuous inherits it)
+  HourlyContinuousCollection.datetimes (lazy slot)
+                                group_by_month_per_hour, *_monthly_per_hour, to_discontinuous(), duplicate /
+                                to_immutable / to_mutable twins, convert_to_culled_timestep  [reads `dts`, `twin`]
+  header.analysis_period        doys_int / months_int / months_per_hour listings of the three interval ops,
+                                _num_of_days_each_month + st_time in the slice arithmetic
+  DailyCollection.group_by_month
+                                average_/total_/percentile_monthly of daily data - directly built AND derived
+                                from hourly data (`daily_of`: hourly -> *_daily -> group_by_month / *_monthly)
+  values setter / __setitem__ / convert_to_culled_timestep / convert_to_unit|ip|si
+                                every read above, on the same object, after the operation was accepted or refused
+
+Round 3: operation histories on one object and on families of objects in one process (read -> set -> read,
+refused operations followed by reads, the same question twice, collections that differ in one respect -
+leap flag, same day numbers in the other kind of year, timestep, shifted, same period - interleaved),
+the same cases in 3-4 fresh interpreters in different orders (rare classes first in one of them).
 """
 import itertools
+import json
 import math
+import os
 import statistics
 import struct
 from datetime import date, datetime, timedelta
@@ -20,7 +52,8 @@ PROP = 'C03'
 PROOF_MODULES = ['Ladybug.Props.C03']
 GREP_MODULES = ['Ladybug.Py', 'Ladybug.Model.Cal', 'Ladybug.Model.AP', 'Ladybug.Model.Group',
                 'Ladybug.Model.Stats', 'Ladybug.Proofs.C03Dict', 'Ladybug.Proofs.C03Cont',
-                'Ladybug.Proofs.C03Stats', 'Ladybug.Proofs.C03Samples', 'Ladybug.Proofs.C03Month', 'Ladybug.Proofs.C03Mph', 'Ladybug.Drv.C03', 'Ladybug.DrvCore']
+                'Ladybug.Proofs.C03Stats', 'Ladybug.Proofs.C03Samples', 'Ladybug.Proofs.C03Month', 'Ladybug.Proofs.C03Mph', 'Ladybug.Model.GroupObj', 'Ladybug.Proofs.C03Obj', 'Ladybug.Drv.C03',
+                'Ladybug.DrvCore']
 RULE = ('correspondence: hourly collections built from plain numbers — continuous (whole-day periods: '
         'annual / partial / year-wrapping / wrapping inside one month, 12 timesteps, leap) and '
         'discontinuous (any hour window; datetimes = the period, a subset with holes, shuffled, '
@@ -29,9 +62,17 @@ RULE = ('correspondence: hourly collections built from plain numbers — continu
         'average_/total_/percentile_ daily|monthly|monthly_per_hour compared on keys, header timestep '
         'and values (bit-exact where the float computation is exact, else 1e-9); percentile/median/'
         'min/max/average/total/highest/lowest on integer, dyadic, tied and random float lists; '
-        'DailyCollection.group_by_month and its monthly statistics.  oracle: every value regrouped by '
+        'DailyCollection.group_by_month and its monthly statistics; operation HISTORIES on one object '
+        '(continuous / discontinuous / daily, mutable and immutable twins: reads in random order and repeated, '
+        'values =, coll[i] =, convert_to_culled_timestep, refused calls followed by reads) compared step by '
+        'step with the object state machine of the model.  oracle: every value regrouped by '
         'its own stdlib datetime, statistics recomputed with Fractions from those groups, continuous '
-        'vs to_discontinuous(), textbook percentile/median/order statistics.  A case is non-trivial '
+        'vs to_discontinuous(), textbook percentile/median/order statistics; histories over 1-3 objects '
+        'that differ in one respect (leap flag, same day numbers in the other kind of year, timestep, '
+        'shifted, same period) with unit conversions and the daily->monthly consumer chain, every read '
+        'compared with the statement on the public state the user established (a refused operation must '
+        'leave every read as before); a slice of the stream re-run in 3-4 fresh interpreters in different '
+        'orders (rare classes first / last / shuffled), failures shrunk to a short replayable order.  A case is non-trivial '
         'when the implementation returns a value (not a rejection); distinct = distinct (op, input).')
 TRUSTED_BASE = [
     'model of AnalysisPeriod (Model/AP.lean, tied by the C04 check) supplies moys/doys_int/months_int/'
@@ -43,7 +84,11 @@ TRUSTED_BASE = [
 ]
 ASSUMPTIONS = [
     'CPython datetime is the reference calendar of the oracle',
-    '/repo carries fixes/C03_1..C03_5 (on a tree without them the check reports the violation)',
+    '/repo carries fixes/C03_1..C03_5 (on a tree without them the check reports the violation); '
+    'fixes/C03_6 (immutable continuous group_by_month) is proposed, until it is committed the defect is '
+    'reported as KNOWN-FINDING C03-immutable-continuous-group-by-month',
+    'histories: an operation the documented validation refuses but the code accepts puts the object in '
+    'the state it reports through values / datetimes / header (the property is then checked on that)',
     'values are finite numbers (no NaN)',
 ]
 
@@ -249,7 +294,7 @@ def _classify(t):
 def _gen_window_ap(rng):
     """Any valid period (hour windows, overnight) for discontinuous headers; small."""
     leap = rng.random() < 0.45
-    ts = rng.choice([1, 1, 2, 3, 4, 6, 12, 60])
+    ts = rng.choice([1, 1, 2, 3, 4, 5, 6, 10, 12, 15, 20, 30, 60])
     (sm, sd) = _gen_date(rng, leap)
     if rng.random() < 0.7:
         d0 = date(_year(leap), sm, sd) + timedelta(days=rng.choice([0, 1, 2, 5, 30, 45]))
@@ -328,6 +373,8 @@ EXACT_P = (0, 100, 50, 25, 75, 12.5, 37.5, 62.5, 87.5, 6.25, 93.75)
 
 def _gen_p(rng):
     r = rng.random()
+    if r < 0.08:                             # strictly inside (0, 1) and (99, 100): design-day extremes
+        return rng.choice([0.4, 0.5, 0.25, 0.025, 99.6, 99.5, 1, 99, rng.uniform(0, 1), rng.uniform(99, 100)]), False
     if r < 0.6:
         return rng.choice(EXACT_P), True
     if r < 0.8:
@@ -636,6 +683,9 @@ def correspondence(ctx):
     hl('highest', 'highest_values')
     hl('lowest', 'lowest_values')
 
+    # ---- histories on one object: object state machine of the model vs the real classes, step by step
+    _corr_histories(ctx)
+
 
 # ---------------------------------------------------------------------------------------------
 # property oracle: the statement of C03 evaluated on the real code, independent of the model
@@ -657,20 +707,22 @@ def _expected_groups(by, dleap, moys):
 
 
 def _textbook_percentile(vals, p):
-    s = sorted(Fraction(v) for v in vals)
+    s = sorted(vals)
     k = Fraction(len(s) - 1) * Fraction(p) / 100
     lo = math.floor(k)
     hi = math.ceil(k)
-    return s[lo] + (k - lo) * (s[hi] - s[lo])
+    a, b = Fraction(s[lo]), Fraction(s[hi])
+    return a + (k - lo) * (b - a)
 
 
 def _stat_ref(stat, p, vals):
+    if stat == 'percentile':
+        return _textbook_percentile(vals, p)
+    if all(isinstance(v, (int, float)) for v in vals):
+        tot = math.fsum(vals)              # the correctly rounded exact sum
+        return tot / len(vals) if stat == 'average' else tot
     fr = [Fraction(v) for v in vals]
-    if stat == 'average':
-        return sum(fr) / len(fr)
-    if stat == 'total':
-        return sum(fr)
-    return _textbook_percentile(vals, p)
+    return sum(fr) / len(fr) if stat == 'average' else sum(fr)
 
 
 def _build(inp):
@@ -699,7 +751,7 @@ def _chrono_first(keys):
     return out
 
 
-def check_case(op, inp):
+def _check_plain(op, inp):
     if op == 'partition':
         by = inp['by']
         coll, dleap, moys, _ = _build(inp)
@@ -846,8 +898,1141 @@ def check_case(op, inp):
     raise ValueError('unknown op ' + op)
 
 
+# ---------------------------------------------------------------------------------------------
+# histories on one object / several objects in one process (round 3)
+#
+# A history is {'objs': [spec…], 'ops': [[k, name, args…]…]}: `k` selects the object.  The harness
+# keeps, per object, the PUBLIC STATE the user has established (`_St`: class, period, datetimes, values,
+# unit) by interpreting the same ops with plain Python; after every read the real object's answer is
+# compared with the statement of C03 evaluated on that state.  An op the public API refuses (raises)
+# must leave every later read as before; an op that is expected to be refused but is accepted puts the
+# object outside what the harness can speak about (history stops for that object, nothing is reported).
+#
+#   reads      group <by> | stat <iv> <stat> <p> | pct <p> | median | minmax | avg | total |
+#              highest <n> | lowest <n> | dts | twin <how> <by> | daily_of <stat> <p> <stat2> <p2>
+#   mutators   setvals <list> | setitem <i> <v> | cull <timestep> | unit <u> | ip | si
+#   refused    the same with arguments the validation code rejects, every mutator on an immutable twin,
+#              pct/stat/highest/lowest outside their documented range
+
+UNIT_FWD = {('C', 'F'): lambda v: v * 9. / 5. + 32., ('F', 'C'): lambda v: (v - 32.) * 5. / 9.,
+            ('C', 'C'): lambda v: v, ('F', 'F'): lambda v: v}
+BAD_TS = (7, 8, 9, 11, 0, 61, -1, 13, 24, 45, 120)
+READS = ('group', 'stat', 'pct', 'median', 'minmax', 'avg', 'total', 'highest', 'lowest', 'dts', 'twin',
+         'daily_of')
+MUTATORS = ('setvals', 'setitem', 'cull', 'unit', 'ip', 'si')
+
+
+class _St(object):
+    """Public state of one collection, kept with plain Python (nothing here calls ladybug)."""
+
+    def __init__(self, spec):
+        self.kind = spec['kind']
+        self.imm = bool(spec.get('imm'))
+        self.t = tuple(spec['t'])
+        self.dleap = bool(spec.get('dleap', self.t[7]))
+        if self.kind == 'cont':
+            self.moys = ref_moys(self.t)
+        elif self.kind == 'disc':
+            self.moys = list(spec['moys'])
+        else:
+            self.moys = list(spec['doys'])       # day numbers
+        v = spec.get('vals')
+        self.vals = [float(x) for x in v] if v is not None else [float(i) for i in range(len(self.moys))]
+        self.unit = 'C'
+        self.dead = False
+        self.last = 'fresh'
+
+    def key_of(self, by, m):
+        if self.kind == 'daily':
+            return (date(_year(self.t[7]), 1, 1) + timedelta(days=m - 1)).month
+        return _keys_of(self.dleap, m)[_BY_IX[by]]
+
+    def groups(self, by):
+        exp = {}
+        for m, v in zip(self.moys, self.vals):
+            exp.setdefault(self.key_of(by, m), []).append(v)
+        return exp
+
+    def listing(self, by):
+        """Keys in the order of the header period (first visit)."""
+        ck = (self.kind, self.t, by)
+        if ck in _LISTING:
+            return _LISTING[ck]
+        if self.kind == 'daily':
+            sm, sd, _, em, ed, _, _, leap = self.t
+            a, b = _moy(leap, sm, sd) // 1440, _moy(leap, em, ed) // 1440
+            n = 366 if leap else 365
+            days = list(range(a, b + 1)) if a <= b else list(range(a, n)) + list(range(0, b + 1))
+            first = _chrono_first((date(_year(leap), 1, 1) + timedelta(days=d)).month for d in days)
+        else:
+            ix = _BY_IX[by]
+            first = list(dict.fromkeys(_keys_of(self.t[7], m)[ix] for m in ref_moys(self.t)))
+            if by == 'mph':
+                months = _chrono_first(k[0] for k in first)
+                first = [k for mo in months for k in sorted(x for x in first if x[0] == mo)]
+        if len(_LISTING) > 400:
+            _LISTING.clear()
+        _LISTING[ck] = first
+        return first
+
+
+_BY_IX = {'day': 0, 'month': 1, 'mph': 2}
+_KEYS = {}
+_LISTING = {}
+
+
+def _keys_of(leap, m):
+    """(day of year, month, (month, hour, minute)) of minute-of-year m, by the stdlib calendar."""
+    k = _KEYS.get((leap, m))
+    if k is None:
+        r = _ref_dt(leap, m)
+        k = (r.timetuple().tm_yday, r.month, (r.month, r.hour, r.minute))
+        if len(_KEYS) > 600000:
+            _KEYS.clear()
+        _KEYS[(leap, m)] = k
+    return k
+
+
+def _spec_apply(st, op):
+    """Interpret a mutator on the public state; False = the API refuses it (state unchanged)."""
+    name = op[0]
+    n = len(st.vals)
+    if st.imm:
+        return False
+    if name == 'setvals':
+        v = op[1]
+        if not isinstance(v, list) or len(v) != n or not v:
+            return False
+        st.vals = [float(x) for x in v]
+        return True
+    if name == 'setitem':
+        i = op[1]
+        if not isinstance(i, int) or not (-n <= i < n):
+            return False
+        st.vals[i] = float(op[2])
+        return True
+    if name == 'cull':
+        ts = op[1]
+        if st.kind == 'daily' or isinstance(ts, bool) or ts not in VALID_TS:
+            return False
+        step = 60 // ts
+        keep = [i for i, m in enumerate(st.moys) if m % step == 0]
+        st.moys = [st.moys[i] for i in keep]
+        st.vals = [st.vals[i] for i in keep]
+        st.t = st.t[:6] + (ts, st.t[7])
+        return True
+    if name in ('unit', 'ip', 'si'):
+        to = op[1] if name == 'unit' else ('F' if name == 'ip' else 'C')
+        if (st.unit, to) not in UNIT_FWD:
+            return False
+        f = UNIT_FWD[(st.unit, to)]
+        st.vals = [f(v) for v in st.vals]
+        st.unit = to
+        return True
+    raise ValueError('unknown mutator %r' % (op,))
+
+
+def _read_refused(st, op):
+    """Reads whose argument is outside the documented range (the API asserts)."""
+    name = op[0]
+    n = len(st.vals)
+    if name == 'pct':
+        return not (0 <= op[1] <= 100)
+    if name == 'stat':
+        return op[2] == 'percentile' and not (0 <= op[3] <= 100)
+    if name in ('highest', 'lowest'):
+        return not (1 <= op[1] <= n)
+    if name == 'daily_of':
+        return (op[1] == 'percentile' and not (0 <= op[2] <= 100)) or \
+            (op[3] == 'percentile' and not (0 <= op[4] <= 100))
+    return False
+
+
+def _mk_real(spec):
+    from ladybug.datacollection import HourlyContinuousCollection, HourlyDiscontinuousCollection, \
+        DailyCollection
+    from ladybug.datacollectionimmutable import HourlyContinuousCollectionImmutable, \
+        HourlyDiscontinuousCollectionImmutable, DailyCollectionImmutable
+    from ladybug.dt import DateTime
+    t = tuple(spec['t'])
+    st = _St(spec)
+    h = _header(t)
+    imm = bool(spec.get('imm'))
+    if spec['kind'] == 'cont':
+        return (HourlyContinuousCollectionImmutable if imm else HourlyContinuousCollection)(h, list(st.vals))
+    if spec['kind'] == 'disc':
+        dts = []
+        for m in st.moys:
+            r = _ref_dt(st.dleap, m)
+            dts.append(DateTime(r.month, r.day, r.hour, r.minute, st.dleap))
+        return (HourlyDiscontinuousCollectionImmutable if imm else HourlyDiscontinuousCollection)(
+            h, list(st.vals), dts)
+    return (DailyCollectionImmutable if imm else DailyCollection)(h, list(st.vals), list(st.moys))
+
+
+def _real_apply(c, op):
+    name = op[0]
+    if name == 'setvals':
+        c.values = list(op[1]) if isinstance(op[1], list) else op[1]
+    elif name == 'setitem':
+        c[op[1]] = op[2]
+    elif name == 'cull':
+        c.convert_to_culled_timestep(op[1])
+    elif name == 'unit':
+        c.convert_to_unit(op[1])
+    elif name == 'ip':
+        c.convert_to_ip()
+    elif name == 'si':
+        c.convert_to_si()
+    else:
+        raise ValueError('unknown mutator %r' % (op,))
+
+
+def _near(a, b):
+    if isinstance(a, bool) or isinstance(b, bool) or not isinstance(a, (int, float)) or \
+            not isinstance(b, (int, float)):
+        return False
+    return a == b or abs(a - b) <= 1e-9 * max(1.0, abs(b))
+
+
+def _same_vals(a, b):
+    return len(a) == len(b) and all(_near(x, y) for x, y in zip(a, b))
+
+
+def _grp_fn(st, by):
+    return 'group_by_month' if st.kind == 'daily' else GROUP_FN[by]
+
+
+def _cmp_groups(got, exp, what):
+    nonempty = {k: list(v) for k, v in got.items() if len(v)}
+    for k in sorted(set(nonempty) | set(exp), key=str):
+        a, b = exp.get(k, []), nonempty.get(k, [])
+        if not _same_vals(b, a):
+            fail = 'too-long' if len(b) > len(a) else 'too-short' if len(b) < len(a) else 'other-values'
+            return {'required': '%s: group %s = %d values %s' % (what, k, len(a), a[:6]),
+                    'observed': '%d values %s' % (len(b), b[:6]), 'fail': fail}
+    return None
+
+
+def _cmp_stats(r, st, by, stat, p, exp, what):
+    """r: result collection of a statistic per interval; exp: expected groups {key: values}.
+    (A period that wraps the year end inside one month lists that month twice: tolerated.)"""
+    want_keys = [k for k in st.listing(by) if k in exp]
+    keys = list(r.datetimes)
+    if len(r.values) != len(keys):
+        return {'required': '%s: one value per key' % what, 'observed': len(r.values), 'fail': 'keys'}
+    for k, v in zip(keys, r.values):
+        if k not in exp:
+            return {'required': '%s: only groups with data are reported' % what, 'observed': 'key %s' % (k,),
+                    'fail': 'phantom-group'}
+        want = float(_stat_ref(stat, p, exp[k]))
+        if not _near(v, want):
+            return {'required': '%s: %s of group %s = %r' % (what, stat, k, want), 'observed': v,
+                    'fail': 'wrong-statistic'}
+    if _chrono_first(keys) != want_keys:
+        return {'required': '%s: keys in period order %s' % (what, want_keys[:12]), 'observed': keys[:12],
+                'fail': 'keys'}
+    return None
+
+
+def _read_check(c, st, op):
+    """Evaluate one read on the real object and compare with the statement on the public state."""
+    name = op[0]
+    vals = st.vals
+    n = len(vals)
+    if name == 'group':
+        by = op[1]
+        return _cmp_groups(getattr(c, _grp_fn(st, by))(), st.groups(by), 'group_by_' + by)
+    if name == 'stat':
+        iv, stat, p = op[1], op[2], op[3]
+        by = {'daily': 'day', 'monthly': 'month', 'monthlyperhour': 'mph'}[iv]
+        r = _op_method(c, iv, stat, p)
+        res = _cmp_stats(r, st, by, stat, p, st.groups(by), '%s_%s' % (stat, iv))
+        if res is None and st.kind != 'daily' and iv in ('daily', 'monthly') and \
+                r.header.analysis_period.timestep != 1:
+            return {'required': 'timestep 1', 'observed': r.header.analysis_period.timestep, 'fail': 'timestep'}
+        return res
+    if name == 'pct':
+        w = float(_textbook_percentile(vals, op[1]))
+        g = c.percentile(op[1])
+        return None if _near(g, w) else {'required': 'percentile %s = %r' % (op[1], w), 'observed': g,
+                                         'fail': 'percentile'}
+    if name == 'median':
+        w = float(_textbook_percentile(vals, 50))
+        g = c.median
+        return None if _near(g, w) else {'required': 'median %r' % w, 'observed': g, 'fail': 'median'}
+    if name == 'minmax':
+        g = (c.min, c.max, tuple(c.bounds))
+        w = (min(vals), max(vals), (min(vals), max(vals)))
+        ok = _near(g[0], w[0]) and _near(g[1], w[1]) and _same_vals(g[2], w[2])
+        return None if ok else {'required': 'min/max/bounds %r' % (w,), 'observed': g, 'fail': 'minmax'}
+    if name in ('avg', 'total'):
+        fr = [Fraction(v) for v in vals]
+        w = float(sum(fr) / len(fr)) if name == 'avg' else float(sum(fr))
+        g = c.average if name == 'avg' else c.total
+        return None if _near(g, w) else {'required': '%s %r' % (name, w), 'observed': g, 'fail': 'total-average'}
+    if name in ('highest', 'lowest'):
+        cnt = op[1]
+        v, ix = getattr(c, name + '_values')(cnt)
+        w = sorted(vals, reverse=(name == 'highest'))[:cnt]
+        if not _same_vals(list(v), w):
+            return {'required': 'first %d of the sort %s' % (cnt, w[:8]), 'observed': list(v)[:8],
+                    'fail': name + '_values-values'}
+        if len(ix) != cnt or len(set(ix)) != cnt or any(not (0 <= i < n) or not _near(vals[i], x)
+                                                          for i, x in zip(ix, v)):
+            return {'required': 'vals[idx[i]] == values[i], indices distinct', 'observed': list(ix)[:12],
+                    'fail': name + '_values-indices'}
+        return None
+    if name == 'dts':
+        got = list(c.datetimes)
+        if st.kind == 'daily':
+            ok = got == st.moys
+        else:
+            ok = len(got) == len(st.moys) and all(
+                bool(d.leap_year) == st.dleap and _moy(st.dleap, d.month, d.day, d.hour, d.minute) == m
+                for d, m in zip(got, st.moys))
+        return None if ok else {'required': 'datetimes = the %d established steps' % len(st.moys),
+                                'observed': '%d datetimes %s' % (len(got), [str(x) for x in got[:3]]),
+                                'fail': 'datetimes'}
+    if name == 'twin':
+        how, by = op[1], op[2]
+        if how == 'disc':
+            d = c.to_discontinuous()
+        elif how == 'dup':
+            d = c.duplicate()
+        elif how == 'mut':
+            d = c.to_mutable()
+        else:
+            d = c.to_immutable()
+        res = _cmp_groups(getattr(d, _grp_fn(st, by))(), st.groups(by), '%s twin group_by_%s' % (how, by))
+        if res is None and not _same_vals(list(d.values), vals):
+            res = {'required': 'twin holds the same values', 'observed': list(d.values)[:8], 'fail': 'twin-values'}
+        if res:
+            res['fail'] = 'twin-' + res['fail']
+        return res
+    if name == 'daily_of':
+        # consumer chain: hourly -> <stat>_daily -> DailyCollection.group_by_month / <stat2>_monthly
+        stat, p, stat2, p2 = op[1], op[2], op[3], op[4]
+        dcoll = _op_method(c, 'daily', stat, p)
+        dayg = st.groups('day')
+        res = _cmp_stats(dcoll, st, 'day', stat, p, dayg, '%s_daily' % stat)
+        if res:
+            return res
+        # (a period whose window wraps the year end inside one day lists that day twice - C04's
+        # chronological-visits reading, tolerated here as in _cmp_stats: take the validated keys)
+        days = list(dcoll.datetimes)
+        dvals = [_stat_ref(stat, p, dayg[k]) for k in days]
+        leap = st.t[7]
+        mexp = {}
+        for k, v in zip(days, dvals):
+            mexp.setdefault((date(_year(leap), 1, 1) + timedelta(days=k - 1)).month, []).append(v)
+        res = _cmp_groups(dcoll.group_by_month(), {k: [float(x) for x in v] for k, v in mexp.items()},
+                          'group_by_month of the %s_daily collection' % stat)
+        if res is None:
+            r2 = _op_method(dcoll, 'monthly', stat2, p2)
+            mlist = [k for k in _chrono_first(k[0] if isinstance(k, tuple) else k for k in st.listing('month'))
+                     if k in mexp]
+            keys = list(r2.datetimes)
+            if _chrono_first(keys) != mlist or len(keys) != len(r2.values):
+                res = {'required': 'months %s' % mlist, 'observed': keys, 'fail': 'keys'}
+            else:
+                for k, v in zip(keys, r2.values):
+                    w = float(_stat_ref(stat2, p2, mexp[k]))
+                    if not _near(v, w):
+                        res = {'required': '%s_monthly of the %s_daily collection, month %s = %r'
+                               % (stat2, stat, k, w), 'observed': v, 'fail': 'wrong-statistic'}
+                        break
+        if res:
+            res['fail'] = 'daily-chain-' + res['fail']
+        return res
+    raise ValueError('unknown read %r' % (op,))
+
+
+def _fmt_op(op):
+    s = json.dumps(op, default=str)
+    return s if len(s) <= 80 else s[:77] + '...'
+
+
+def _run_history(inp):
+    objs = inp['objs']
+    sts = [_St(s) for s in objs]
+    reals = [None] * len(objs)
+    known = None
+    for step, full in enumerate(inp['ops']):
+        k, op = full[0], full[1:]
+        st = sts[k]
+        if st.dead:
+            continue
+        base_sig = {'coll': st.kind, 'hist': True, 'imm': st.imm, 'span': _classify(st.t) if st.kind != 'daily'
+                    else 'daily', 'leap': bool(st.t[7]), 'subhourly': st.t[6] != 1, 'objs': len(objs)}
+        if reals[k] is None:
+            reals[k] = _mk_real(objs[k])
+        c = reals[k]
+        name = op[0]
+        where = 'step %d %s (object %d: %s%s, after %s)' % (step, _fmt_op(op), k, st.kind,
+                                                          ' immutable' if st.imm else '', st.last)
+        if name in MUTATORS:
+            probe = _St.__new__(_St)
+            probe.__dict__.update(st.__dict__)
+            probe.moys, probe.vals = list(st.moys), list(st.vals)
+            accepted = _spec_apply(probe, op)
+            try:
+                _real_apply(c, op)
+                raised = None
+            except Exception as e:   # noqa: BLE001 - a refusal of the API
+                raised = type(e).__name__
+            if accepted and raised is None:
+                sts[k] = probe
+                probe.last = name
+            elif accepted and raised is not None:
+                return {'required': '%s is accepted' % where, 'observed': 'raises ' + raised,
+                        'sig': dict(base_sig, fail='mutator-raises', step=name)}
+            elif raised is None:
+                # accepted something the documented validation refuses: the harness no longer knows what
+                # the user has established; go on with the state the object itself reports publicly
+                # (values aligned with datetimes under the header period) - the property is about that
+                bad = _resync(st, c)
+                st.last = 'unexpectedly-accepted ' + name
+                if bad:
+                    return {'required': '%s: every value has its own datetime' % where, 'observed': bad,
+                            'sig': dict(base_sig, fail='values-datetimes-mismatch', step=name)}
+            else:
+                st.last = 'refused ' + name
+            continue
+        # a read
+        if _read_refused(st, op):
+            try:
+                _read_check_call_only(c, st, op)
+            except Exception:        # noqa: BLE001
+                pass
+            st.last = 'refused ' + name if st.last == 'fresh' else st.last + '+refused ' + name
+            continue
+        raised_in = None
+        try:
+            res = _read_check(c, st, op)
+        except Exception as e:       # noqa: BLE001
+            import traceback
+            tb = traceback.extract_tb(e.__traceback__)
+            raised_in = tb[-1].name if tb else None
+            res = {'required': 'answers', 'observed': 'raises %s: %s' % (type(e).__name__, str(e)[:120]),
+                   'fail': 'raises ' + type(e).__name__}
+        if res:
+            after = st.last.split('+')[0]
+            sig = dict(base_sig, fail=res['fail'], step=name, after=after.split(' ')[0])
+            if name == 'twin' and op[1] in ('imm', 'mut'):
+                sig['imm'] = op[1] == 'imm'          # the object that answered
+            if raised_in:
+                sig['raised_in'] = raised_in
+            out = {'required': '%s: %s' % (where, res['required']), 'observed': res['observed'], 'sig': sig}
+            if _is_open_finding(sig):
+                known = known or out   # go on: later steps of this history are still checked
+                continue
+            return out
+    return known
+
+
+def _is_open_finding(sig):
+    """The open finding C03-immutable-continuous-group-by-month (see known_findings.d/C03.json)."""
+    return sig.get('fail') == 'raises TypeError' and sig.get('raised_in') == 'group_by_month' and \
+        sig.get('coll') == 'cont' and sig.get('imm') is True
+
+
+def _resync(st, c):
+    """Take the public state from the object's own accessors; -> text when it is not a collection."""
+    try:
+        vals = [float(v) for v in c.values]
+        dts = list(c.datetimes)
+        ap = c.header.analysis_period
+        t = (ap.st_month, ap.st_day, ap.st_hour, ap.end_month, ap.end_day, ap.end_hour, ap.timestep,
+             bool(ap.is_leap_year))
+        if st.kind == 'daily':
+            moys = [int(d) for d in dts]
+        else:
+            moys = [_moy(bool(d.leap_year), d.month, d.day, d.hour, d.minute) for d in dts]
+            if dts:
+                st.dleap = bool(dts[0].leap_year)
+    except Exception as e:           # noqa: BLE001
+        st.dead = True
+        return None
+    if len(vals) != len(moys):
+        return '%d values for %d datetimes' % (len(vals), len(moys))
+    st.vals, st.moys, st.t = vals, moys, t
+    return None
+
+
+def _read_check_call_only(c, st, op):
+    """Issue a read whose argument the API refuses (only the call matters)."""
+    name = op[0]
+    if name == 'pct':
+        c.percentile(op[1])
+    elif name == 'stat':
+        _op_method(c, op[1], op[2], op[3])
+    elif name in ('highest', 'lowest'):
+        getattr(c, name + '_values')(op[1])
+    elif name == 'daily_of':
+        _op_method(_op_method(c, 'daily', op[1], op[2]), 'monthly', op[3], op[4])
+
+
+# ---- process order: the same cases in fresh interpreters, in several orders
+
+
+def _worker_main():
+    """Entry of a fresh interpreter: JSON list of [op, inp] on stdin -> JSON list of results."""
+    import sys
+    sys.path.insert(0, core.REPO)
+    cases = json.load(sys.stdin)
+    out = []
+    for op, inp in cases:
+        try:
+            res = check_case(op, inp)
+        except Exception as e:       # noqa: BLE001
+            res = {'required': 'oracle evaluates', 'observed': 'exception %s: %s' % (type(e).__name__, e),
+                   'sig': {'exception': type(e).__name__}}
+        out.append(res)
+    sys.stdout.write(json.dumps(out, default=str))
+
+
+def _spawn(cases):
+    import subprocess
+    import sys
+    import tempfile
+    env = dict(os.environ, LADYBUG_REPO=core.REPO, PYTHONHASHSEED='0')
+    f = tempfile.TemporaryFile()
+    f.write(json.dumps(cases, default=str).encode('utf-8'))
+    f.seek(0)
+    p = subprocess.Popen([sys.executable, '-c', 'from harness.props import c03; c03._worker_main()'],
+                         cwd=core.ROOT, env=env, stdin=f, stdout=subprocess.PIPE, stderr=subprocess.PIPE)
+    f.close()
+    return p, None
+
+
+def _collect(proc_data, timeout=600):
+    p, data = proc_data
+    try:
+        so, se = p.communicate(data, timeout=timeout)
+    except Exception as e:           # noqa: BLE001
+        p.kill()
+        return [{'required': 'fresh interpreter answers', 'observed': 'timeout/%s' % type(e).__name__,
+                 'sig': {'fail': 'worker'}}]
+    if p.returncode != 0:
+        return [{'required': 'fresh interpreter runs the cases', 'observed': se.decode('utf-8', 'replace')[-400:],
+                 'sig': {'fail': 'worker'}}]
+    return json.loads(so.decode('utf-8'))
+
+
+def _first_failure(res):
+    for i, r in enumerate(res):
+        if r and not _is_open_finding(r.get('sig') or {}):
+            return i, r
+    return None
+
+
+def _run_order(cases):
+    """Run cases in ONE fresh interpreter; -> (index, result) of the first failure or None."""
+    return _first_failure(_collect(_spawn(cases)))
+
+
+def _run_orders(orders):
+    """Several orders, each in its own fresh interpreter, at most 4 at a time."""
+    out = []
+    for i in range(0, len(orders), 4):
+        procs = [_spawn(o) for o in orders[i:i + 4]]
+        out += [_first_failure(_collect(pd)) for pd in procs]
+    return out
+
+
+def _check_process_order(inp):
+    hit = _run_order(inp['order'])
+    if hit is None:
+        return None
+    i, r = hit
+    sig = dict(r.get('sig') or {})
+    sig['order'] = True
+    return {'required': 'case %d of %d in this order in a fresh interpreter (%s): %s'
+            % (i, len(inp['order']), inp['order'][i][0], r.get('required')),
+            'observed': r.get('observed'), 'sig': sig}
+
+
+def check_case(op, inp):
+    if op == 'history':
+        return _run_history(inp)
+    if op == 'process_order':
+        return _check_process_order(inp)
+    return _check_plain(op, inp)
+
+
+# ---- generators of histories (plain numbers; the public state is simulated with _St/_spec_apply)
+
+
+def _other_year_same_doys(t):
+    """The period of the other kind of year that covers the same day numbers (None if impossible)."""
+    sm, sd, sh, em, ed, eh, ts, leap = t
+    a, b = _moy(leap, sm, sd) // 1440, _moy(leap, em, ed) // 1440
+    n2 = 365 if leap else 366
+    if a >= n2 or b >= n2:
+        return None
+    d0 = date(_year(not leap), 1, 1) + timedelta(days=a)
+    d1 = date(_year(not leap), 1, 1) + timedelta(days=b)
+    return (d0.month, d0.day, sh, d1.month, d1.day, eh, ts, not leap)
+
+
+def _valid_t(t):
+    try:
+        _moy(t[7], t[0], t[1]), _moy(t[7], t[3], t[4])
+        return True
+    except ValueError:
+        return False
+
+
+def _family(rng, t, cap):
+    """Periods that agree with t in all but one respect (what an incompletely keyed memo confuses)."""
+    sm, sd, sh, em, ed, eh, ts, leap = t
+    out = []
+    c = (sm, sd, sh, em, ed, eh, ts, not leap)
+    if _valid_t(c):
+        out.append(('flip-leap', c))
+    c = _other_year_same_doys(t)
+    if c:
+        out.append(('same-doys-other-year', c))
+    for ts2 in rng.sample(VALID_TS, 3):
+        if ts2 != ts:
+            out.append(('other-timestep', (sm, sd, sh, em, ed, eh, ts2, leap)))
+    y = _year(leap)
+    try:
+        d0 = date(y, sm, sd) + timedelta(days=1)
+        d1 = date(y, em, ed) + timedelta(days=1)
+        if d0.year == y and d1.year == y:
+            out.append(('shifted', (d0.month, d0.day, sh, d1.month, d1.day, eh, ts, leap)))
+        d1 = date(y, em, ed) - timedelta(days=1)
+        if d1.year == y and (d1.month, d1.day) != (sm, sd):
+            out.append(('same-start', (sm, sd, sh, d1.month, d1.day, eh, ts, leap)))
+    except ValueError:
+        pass
+    out.append(('same-period', t))
+    good = []
+    for tag, c in out:
+        try:
+            if 0 < len(ref_moys(c)) <= cap:
+                good.append((tag, c))
+        except ValueError:
+            pass
+    return good
+
+
+def _feb_period(rng, cap):
+    """Short whole-day periods around the end of February (where the two kinds of year part)."""
+    leap = rng.random() < 0.5
+    ts = rng.choice([1, 1, 2, 4])
+    y = _year(leap)
+    d0 = date(y, 2, 28) - timedelta(days=rng.choice([0, 0, 1, 3]))
+    d1 = date(y, 3, 1) + timedelta(days=rng.choice([0, 1, 1, 2]))
+    return (d0.month, d0.day, 0, d1.month, d1.day, 23, ts, leap)
+
+
+def _gen_obj(rng, cap, kind=None, t=None, model=False):
+    """One object spec (plain numbers)."""
+    kind = kind or rng.choice(['cont', 'cont', 'cont', 'disc', 'disc', 'daily'])
+    imm = rng.random() < 0.25
+    if kind == 'cont':
+        if t is None:
+            t = _feb_period(rng, cap) if rng.random() < 0.2 else _gen_fullday(rng, cap)
+        n = len(ref_moys(t))
+        _, vals = _gen_values(rng, n, 'int' if model and rng.random() < 0.7 else None)
+        return {'kind': 'cont', 'imm': imm, 't': list(t), 'vals': vals}
+    if kind == 'disc':
+        for _ in range(40):
+            if t is not None:
+                base = ref_moys(t)
+                dleap, tag = t[7], 'full'
+                moys = list(base) if rng.random() < 0.5 else ([m for m in base if rng.random() < 0.6] or [base[0]])
+                tt = t
+            else:
+                tt, dleap, moys, tag = _gen_disc(rng, cap)
+            if tag in ('full', 'holes') and 0 < len(moys) <= cap and any(m % 60 == 0 for m in moys):
+                break
+            t = None
+        else:
+            tt, dleap, moys = (1, 1, 0, 1, 3, 23, 1, False), False, list(range(0, 4320, 60))
+        _, vals = _gen_values(rng, len(moys), 'int' if model and rng.random() < 0.7 else None)
+        return {'kind': 'disc', 'imm': imm, 't': list(tt), 'dleap': dleap, 'moys': moys, 'vals': vals}
+    leap = rng.random() < 0.5 if t is None else t[7]
+    n = 366 if leap else 365
+    if t is None or _classify(t) in ('wrap', 'wrap-same-month'):
+        t = (1, 1, 0, 12, 31, 23, 1, leap)
+    a, b = _moy(leap, t[0], t[1]) // 1440 + 1, _moy(leap, t[3], t[4]) // 1440 + 1
+    pool = list(range(a, b + 1))
+    doys = sorted(rng.sample(pool, min(len(pool), rng.choice([1, 3, 40, 120, n]))))
+    if b == n and rng.random() < 0.5 and n not in doys:
+        doys.append(n)
+    _, vals = _gen_values(rng, len(doys), 'int' if model and rng.random() < 0.7 else None)
+    return {'kind': 'daily', 'imm': imm, 't': list(t[:6]) + [1, leap], 'doys': doys, 'vals': vals}
+
+
+def _gen_read(rng, st, model=False):
+    n = len(st.vals)
+    ts = st.t[6]
+    if st.kind == 'daily':
+        r = rng.random()
+        if r < 0.3:
+            return ['group', 'month']
+        if r < 0.65:
+            stat = rng.choice(['average', 'total', 'percentile', 'percentile'])
+            return ['stat', 'monthly', stat, _gen_p(rng)[0] if stat == 'percentile' else 0]
+        return _gen_order_read(rng, n)
+    bys = ['day', 'month', 'mph'] if ts <= 12 or rng.random() < 0.25 else ['day', 'month']
+    r = rng.random()
+    if r < 0.28:
+        return ['group', rng.choice(bys)]
+    if r < 0.55:
+        by = rng.choice(bys)
+        stat = rng.choice(['average', 'total', 'percentile', 'percentile'])
+        return ['stat', {'day': 'daily', 'month': 'monthly', 'mph': 'monthlyperhour'}[by], stat,
+                _gen_p(rng)[0] if stat == 'percentile' else 0]
+    if r < 0.63:
+        return ['dts']
+    if r < 0.75:
+        hows = ['dup', 'imm', 'mut'] + (['disc', 'disc'] if st.kind == 'cont' else [])
+        if model:
+            hows = ['disc'] if st.kind == 'cont' else ['dup']
+        return ['twin', rng.choice(hows), rng.choice(bys)]
+    if r < 0.85 and not model:
+        s1 = rng.choice(['average', 'total', 'percentile'])
+        s2 = rng.choice(['average', 'total', 'percentile', 'percentile'])
+        return ['daily_of', s1, _gen_p(rng)[0] if s1 == 'percentile' else 0, s2,
+                _gen_p(rng)[0] if s2 == 'percentile' else 0]
+    return _gen_order_read(rng, n)
+
+
+def _gen_order_read(rng, n):
+    r = rng.random()
+    if r < 0.3:
+        return ['pct', _gen_p(rng)[0]]
+    if r < 0.4:
+        return ['median']
+    if r < 0.5:
+        return ['minmax']
+    if r < 0.6:
+        return [rng.choice(['avg', 'total'])]
+    return [rng.choice(['highest', 'lowest']), rng.choice([1, n, rng.randrange(1, n + 1)])]
+
+
+def _gen_mutator(rng, st, model=False):
+    n = len(st.vals)
+    r = rng.random()
+    if r < 0.35:
+        kind, vals = _gen_values(rng, n, 'int' if model else None)
+        if rng.random() < 0.3:
+            vals = list(reversed(st.vals))          # same multiset, other order
+        return ['setvals', vals]
+    if r < 0.6:
+        i = rng.choice([0, n - 1, -1, -n, rng.randrange(-n, n)])
+        return ['setitem', i, rng.choice([0.0, -1.0, float(rng.randrange(-99, 2000)), 1e6])]
+    if r < 0.85 and st.kind != 'daily':
+        ts = st.t[6]
+        if st.kind == 'cont':
+            opts = [x for x in VALID_TS if ts % x == 0]
+        else:
+            opts = [x for x in VALID_TS if any(m % (60 // x) == 0 for m in st.moys)]
+        return ['cull', rng.choice(opts)]
+    if model:
+        return ['setitem', rng.randrange(-n, n), float(rng.randrange(-99, 2000))]
+    return rng.choice([['unit', 'F'], ['unit', 'C'], ['ip'], ['si']])
+
+
+def _gen_refused(rng, st, model=False):
+    n = len(st.vals)
+    ts = st.t[6]
+    opts = [['setvals', [1.0] * (n + 1)], ['setvals', [2.0] * (n - 1)], ['setvals', []], ['setvals', 5],
+            ['setitem', n, 1.0], ['setitem', n + 7, 1.0], ['setitem', -n - 1, 1.0],
+            ['pct', 101], ['pct', -1], ['pct', 100.5], ['highest', 0], ['highest', n + 1], ['lowest', 0],
+            ['lowest', n + 2], ['lowest', -3]]
+    if st.kind != 'daily':
+        opts += [['cull', b] for b in BAD_TS] * 2
+        iv = rng.choice(['daily', 'monthly', 'monthlyperhour'] if ts <= 12 else ['daily', 'monthly'])
+        opts += [['stat', iv, 'percentile', rng.choice([-1, 100.5, 101, 1000])]] * 3
+    else:
+        opts += [['stat', 'monthly', 'percentile', rng.choice([-1, 100.5, 101])]] * 3
+    if not model:
+        opts += [['unit', 'bogus'], ['unit', 'W'], ['unit', '']]
+    if st.imm:
+        opts += [_gen_mutator(rng, st, model) for _ in range(12)]
+    return rng.choice(opts)
+
+
+def _sweep(rng, st, k, model=False):
+    if st.kind == 'daily':
+        ops = [['group', 'month'], ['stat', 'monthly', 'percentile', _gen_p(rng)[0]],
+               ['stat', 'monthly', rng.choice(['average', 'total']), 0]]
+    else:
+        ops = [['group', 'day'], ['group', 'month'], ['stat', 'daily', rng.choice(['average', 'total']), 0],
+               ['stat', 'monthly', 'percentile', _gen_p(rng)[0]]]
+        if st.t[6] <= 12:
+            ops += [['group', 'mph'], ['stat', 'monthlyperhour', rng.choice(['average', 'total', 'percentile']), 50]]
+        if st.kind == 'cont':
+            ops.append(['twin', 'disc', rng.choice(['day', 'month', 'mph'] if st.t[6] <= 12 else ['day', 'month'])])
+    ops += [['pct', _gen_p(rng)[0]], ['highest', min(3, len(st.vals))]]
+    return [[k] + o for o in ops]
+
+
+def _gen_history(rng, cap=1500, model=False, nobj=None, first=None):
+    """A history over 1–3 objects.  `first`: 'refused' / 'read' forces the kind of the first op."""
+    base = _gen_obj(rng, cap, model=model)
+    objs = [base]
+    nobj = nobj if nobj is not None else (1 if model else rng.choice([1, 1, 2, 3]))
+    if nobj > 1 and base['kind'] != 'daily':
+        fam = _family(rng, tuple(base['t']), cap)
+        rng.shuffle(fam)
+        for tag, t2 in fam[:nobj - 1]:
+            kind = base['kind'] if rng.random() < 0.7 else ('disc' if base['kind'] == 'cont' else 'cont')
+            if kind == 'cont' and not (t2[2] == 0 and t2[5] == 23):
+                kind = 'disc'
+            objs.append(_gen_obj(rng, cap, kind=kind, t=t2, model=model))
+    elif nobj > 1:
+        for _ in range(nobj - 1):
+            objs.append(_gen_obj(rng, cap, kind='daily', t=tuple(base['t'][:7]) + (rng.random() < 0.5,), model=model))
+    if rng.random() < 0.5:
+        rng.shuffle(objs)
+    sts = [_St(o) for o in objs]
+    ops = []
+    pending = []                     # reads owed after a mutator / refusal: (k, read)
+    nsteps = rng.randrange(6, 15)
+    prev_read = None
+    for i in range(nsteps):
+        k = rng.randrange(len(objs))
+        st = sts[k]
+        r = rng.random()
+        if i == 0 and first:
+            r = {'refused': 0.99, 'read': 0.0, 'mutator': 0.6}[first]
+        if pending and rng.random() < 0.8:
+            ops.append(pending.pop(0))
+            continue
+        if r < 0.5:
+            if prev_read is not None and rng.random() < 0.12:
+                ops.append(list(prev_read))          # the same question twice
+                continue
+            rd = [k] + _gen_read(rng, st, model)
+            ops.append(rd)
+            prev_read = rd
+        elif r < 0.78 and not st.imm:
+            m = _gen_mutator(rng, st, model)
+            before = [k] + _gen_read(rng, st, model) if rng.random() < 0.4 else None
+            if before:
+                ops.append(before)                    # read -> set -> the same read
+            if _spec_apply(st, m):
+                ops.append([k] + m)
+                if before:
+                    pending.append(list(before))
+                pending.append([k] + _gen_read(rng, st, model))
+                pending.append([k] + _gen_read(rng, st, model))
+        else:
+            ops.append([k] + _gen_refused(rng, st, model))
+            pending.append([k] + _gen_read(rng, st, model))
+            pending.append([k] + _gen_read(rng, st, model))
+    ops += pending
+    for k, st in enumerate(sts):
+        ops += _sweep(rng, st, k, model)
+    return {'objs': objs, 'ops': ops}
+
+
+def _hist_counts(ctx, h, prefix='hist'):
+    ctx.count('%s:objects:%d' % (prefix, len(h['objs'])))
+    for o in h['objs']:
+        ctx.count('%s:obj:%s%s' % (prefix, o['kind'], ':imm' if o.get('imm') else ''))
+        t = tuple(o['t'])
+        if o['kind'] != 'daily':
+            ctx.count('%s:span:%s' % (prefix, _classify(t)))
+        ctx.count('%s:leap:%s' % (prefix, t[7]))
+        ctx.count('%s:ts:%d' % (prefix, t[6]))
+    sts = [_St(o) for o in h['objs']]
+    for full in h['ops']:
+        st, op = sts[full[0]], full[1:]
+        if op[0] in MUTATORS:
+            ok = _spec_apply(st, op)
+            ctx.count('%s:op:%s:%s' % (prefix, op[0], 'accepted' if ok else 'refused'))
+        else:
+            ctx.count('%s:op:%s%s' % (prefix, op[0], ':refused' if _read_refused(st, op) else ''))
+    if h['ops'] and (h['ops'][0][1] in MUTATORS or _read_refused(_St(h['objs'][h['ops'][0][0]]), h['ops'][0][1:])):
+        ctx.count('%s:first-op-mutator-or-refused' % prefix)
+
+
+def _rarity(case):
+    """Sort key: rare classes first (leap, wrapping, sub-hourly, refused call first)."""
+    op, inp = case
+    score = 0
+    if op == 'history':
+        o = inp['objs'][inp['ops'][0][0]]
+        t = tuple(o['t'])
+        first = inp['ops'][0][1:]
+        st = _St(o)
+        if first[0] in MUTATORS:
+            probe = _St(o)
+            score += 4 if not _spec_apply(probe, first) else 1
+        elif _read_refused(st, first):
+            score += 4
+    else:
+        t = tuple(inp['t']) if 't' in inp else (1, 1, 0, 12, 31, 23, 1, bool(inp.get('leap')))
+    score += 3 if t[7] else 0
+    if op != 'daily_month' and _valid_t(t):
+        score += 2 if _classify(t).startswith('wrap') else 0
+    score += 1 if t[6] != 1 else 0
+    return -score
+
+
+def _order_slices(ctx):
+    """Cases for the fresh-interpreter runs: small families of plain cases + histories."""
+    rng = ctx.rng
+    cases = []
+    nfam = ctx.n(7, 30)
+    for _ in range(nfam):
+        t = _feb_period(rng, 800) if rng.random() < 0.4 else _gen_fullday(rng, 800)
+        fam = [('base', t)] + _family(rng, t, 800)
+        rng.shuffle(fam)
+        for tag, t2 in fam[:4]:
+            ctx.count('order:family:' + tag)
+            by = rng.choice(['day', 'month', 'mph'] if t2[6] <= 12 else ['day', 'month'])
+            if rng.random() < 0.5:
+                cases.append(('partition', {'coll': 'cont', 'by': by, 't': list(t2)}))
+            else:
+                cases.append(('cont_vs_disc', {'t': list(t2)}))
+            iv = rng.choice(['daily', 'monthly', 'monthlyperhour'] if t2[6] <= 12 else ['daily', 'monthly'])
+            stat = rng.choice(['average', 'total', 'percentile'])
+            _, vals = _gen_values(rng, len(ref_moys(t2)))
+            cases.append(('stats_of_groups', {'coll': 'cont', 'iv': iv, 'stat': stat, 'p': _gen_p(rng)[0],
+                                              't': list(t2), 'vals': vals}))
+    for i in range(ctx.n(14, 60)):
+        h = _gen_history(rng, 700, first=('refused' if i % 3 == 0 else None))
+        _hist_counts(ctx, h, 'order-hist')
+        cases.append(('history', h))
+    for leap in (True, False):
+        n = 366 if leap else 365
+        cases.append(('daily_month', {'leap': leap, 'doys': [59, 60, 61, n - 1, n],
+                                      'vals': [5.0, 1.0, 4.0, 2.0, 3.0]}))
+    for _ in range(ctx.n(10, 40)):
+        n = rng.choice([1, 2, 5, 24, 25])
+        _, vals = _gen_values(rng, n)
+        cases.append(('order_stats', {'vals': vals, 'p': _gen_p(rng)[0], 'p2': _gen_p(rng)[0],
+                                      'count': rng.randrange(1, n + 1)}))
+    return cases
+
+
+def _shrink_order(order, j):
+    """order[j] failed in a fresh interpreter after order[:j].  Find a short order that still fails."""
+    bad = order[j]
+    if _run_order([bad]) is not None:
+        return None                          # fails on its own: a plain failing input
+    cand = list(range(j - 1, -1, -1))[:64]   # one predecessor, the most recent first
+    for k in range(0, len(cand), 4):
+        part = cand[k:k + 4]
+        hits = _run_orders([[order[i], bad] for i in part])
+        for i, h in zip(part, hits):
+            if h is not None:
+                return [order[i], bad]
+    pre = order[:j]
+    n, runs = 2, 0                           # delta debugging on the prefix
+    while len(pre) >= 2 and runs < 24:
+        size = max(1, len(pre) // n)
+        chunks = [pre[i:i + size] for i in range(0, len(pre), size)]
+        reduced = False
+        for ci in range(len(chunks)):
+            rest = [c for k, ch in enumerate(chunks) if k != ci for c in ch]
+            runs += 1
+            if _run_order(rest + [bad]) is not None:
+                pre, n, reduced = rest, max(n - 1, 2), True
+                break
+        if not reduced:
+            if n >= len(pre):
+                break
+            n = min(len(pre), n * 2)
+    return pre + [bad]
+
+
+def _oracle_process_orders(ctx):
+    rng = ctx.rng
+    cases = _order_slices(ctx)
+    norders = ctx.n(3, 4)
+    orders = []
+    rare_first = sorted(cases, key=_rarity)
+    orders.append(rare_first)
+    orders.append(list(reversed(rare_first)))
+    while len(orders) < norders:
+        o = list(cases)
+        rng.shuffle(o)
+        orders.append(o)
+    procs = [_spawn([list(c) for c in o]) for o in orders]
+    for o, pd in zip(orders, procs):
+        res = _collect(pd)
+        ctx.count('order:interpreters')
+        ctx.count('order:cases', len(res))
+        for c in o[:len(res)]:
+            ctx.case(('order', json.dumps(c, sort_keys=True, default=str)[:3000]))
+        olist = [list(c) for c in o]
+        reported = 0
+        for j, r in enumerate(res):
+            if not r:
+                continue
+            if _is_open_finding(r.get('sig') or {}):
+                ctx.count('order:open-finding-hit')
+                continue
+            worker = (r.get('sig') or {}).get('fail') == 'worker'
+            short = olist[:j + 1] if worker else _shrink_order(olist, j)
+            if short is None:
+                ctx.fail(olist[j][0], olist[j][1], r.get('required'), r.get('observed'), r.get('sig'))
+            else:
+                inp = {'order': short}
+                rr = (None if worker else _check_process_order(inp)) or {
+                    'required': r.get('required'), 'observed': r.get('observed'),
+                    'sig': dict(r.get('sig') or {}, order=True)}
+                ctx.fail('process_order', inp, rr['required'], rr['observed'], rr['sig'])
+            reported += 1
+            if reported >= 2:
+                break
+        if reported:
+            break
+
+
+# ---- model vs code on histories (Drv/C03.lean `hist`, Model/GroupObj.lean)
+
+
+def _tok_op(op):
+    name = op[0]
+    if name == 'stat':
+        return 'stat %s %s %s' % (op[1], op[2], _frac_tok(op[3]))
+    if name == 'pct':
+        return 'pct ' + _frac_tok(op[1])
+    if name == 'twin':
+        return 'twin ' + op[2]
+    if name == 'setvals':
+        if not isinstance(op[1], list):
+            return 'setvals N'
+        return 'setvals %d %s' % (len(op[1]), ' '.join(_frac_tok(v) for v in op[1]))
+    if name == 'setitem':
+        return 'setitem %d %s' % (op[1], _frac_tok(op[2]))
+    return ' '.join(str(x) for x in op)
+
+
+def _hist_line(h):
+    o = h['objs'][0]
+    t = tuple(o['t'])
+    stamps = o.get('moys') if o['kind'] == 'disc' else o.get('doys') if o['kind'] == 'daily' else []
+    head = 'hist %s %s %s %s %d %s %d %s' % (o['kind'], _b(o.get('imm')), _ap_tokens(t), _b(o.get('dleap', t[7])),
+                                            len(stamps), ' '.join(map(str, stamps)), len(o['vals']),
+                                            ' '.join(_frac_tok(v) for v in o['vals']))
+    return ' '.join(head.split()) + ''.join(' | ' + _tok_op(full[1:]) for full in h['ops'])
+
+
+def _show_groups_vals(d, mph):
+    items = list(d.items())
+    return 'ok nkeys %d groups' % len(items) + ''.join(
+        ' %s=%s' % (_k3(k) if mph else k, ','.join(_frac_tok(x) for x in v)) for k, v in items if len(v))
+
+
+def _hist_impl_step(c, kind, leap_of, op):
+    """Answer of the real object to one op, in the driver's format (numeric answers as tuples)."""
+    name = op[0]
+    if name in MUTATORS:
+        _real_apply(c, op)
+        return 'ok'
+    if name == 'group':
+        by = op[1]
+        fn = 'group_by_month' if kind == 'daily' else GROUP_FN[by]
+        return _show_groups_vals(getattr(c, fn)(), by == 'mph')
+    if name == 'twin':
+        d = c.to_discontinuous() if kind == 'cont' else c.duplicate()
+        return _show_groups_vals(getattr(d, GROUP_FN[op[2]])(), op[2] == 'mph')
+    if name == 'stat':
+        r = _op_method(c, op[1], op[2], op[3])
+        keys = [(_k3(k) if isinstance(k, tuple) else str(k)) for k in r.datetimes]
+        return ('stat', r.header.analysis_period.timestep, keys, list(r.values))
+    if name == 'pct':
+        return ('num', [c.percentile(op[1])])
+    if name == 'median':
+        return ('num', [c.median])
+    if name == 'avg':
+        return ('num', [c.average])
+    if name == 'total':
+        return ('num', [c.total])
+    if name == 'minmax':
+        return ('num', [c.min, c.max])
+    if name in ('highest', 'lowest'):
+        v, ix = getattr(c, name + '_values')(op[1])
+        return 'ok ' + ' '.join(_frac_tok(x) for x in v) + ' | ' + ' '.join(str(i) for i in ix)
+    if name == 'dts':
+        got = list(c.datetimes)
+        ms = got if kind == 'daily' else [_moy(bool(d.leap_year), d.month, d.day, d.hour, d.minute) for d in got]
+        return 'ok %d %d %d %d' % (len(ms), ms[0] if ms else 0, ms[-1] if ms else 0, sum(ms))
+    raise ValueError('unknown op %r' % (op,))
+
+
+def _step_agrees(mo, io):
+    if isinstance(io, tuple):
+        if not mo.startswith('ok '):
+            return False
+        if io[0] == 'stat':
+            pm = _parse_op(mo)
+            return not isinstance(pm, str) and pm[0] == io[1] and pm[1] == io[2] and len(pm[2]) == len(io[3]) \
+                and all(_close(a, b, False) for a, b in zip(pm[2], io[3]))
+        mv = [Fraction(x) for x in mo[3:].split()]
+        return len(mv) == len(io[1]) and all(_close(a, b, False) for a, b in zip(mv, io[1]))
+    return ' '.join(mo.split()) == ' '.join(io.split())
+
+
+def _corr_histories(ctx):
+    rng = ctx.rng
+    hs = []
+    for i in range(ctx.n(70, 450)):
+        first = 'refused' if i % 5 == 0 else 'read' if i % 5 == 1 else None
+        h = _gen_history(rng, 900 if i % 4 else 2000, model=True, nobj=1, first=first)
+        _hist_counts(ctx, h, 'corr-hist')
+        hs.append(h)
+    outs = ctx.driver().run([_hist_line(h) for h in hs])
+    for h, mo in zip(hs, outs):
+        o = h['objs'][0]
+        msteps = mo.split(' ;; ')
+        ctx.compared += 1
+        ctx.count('op:hist')
+        ctx.case(('hist', _hist_line(h)[:3000]), nontrivial=True)
+        if len(msteps) != len(h['ops']):
+            ctx.disagree('hist', {'history': h}, mo[:300], 'model answered %d steps for %d ops' % (len(msteps), len(h['ops'])))
+            continue
+        c = _mk_real(o)
+        for i, (full, ms) in enumerate(zip(h['ops'], msteps)):
+            op = full[1:]
+            try:
+                io = _hist_impl_step(c, o['kind'], o['t'][7], op)
+            except Exception as e:       # noqa: BLE001
+                io = 'err:' + err_name(e)
+                if io == 'err:type' and o['kind'] == 'cont' and o.get('imm') and ms.startswith('ok') and \
+                        ((op[0] == 'group' and op[1] == 'month') or (op[0] == 'stat' and op[1] == 'monthly')):
+                    ctx.count('corr-hist:open-finding-hit')   # C03-immutable-continuous-group-by-month
+                    continue
+            ctx.count('corr-hist:steps')
+            if not _step_agrees(ms, io):
+                ctx.disagree('hist', {'history': {'objs': h['objs'], 'ops': h['ops'][:i + 1]}, 'step': i,
+                                      'op': op}, ms[:400], (io if isinstance(io, str) else repr(io))[:400])
+                break
+    if hs:
+        ctx.sample({'op': 'hist', 'request': _hist_line(hs[0])[:300], 'model': outs[0][:300]})
+
+
+def _oracle_histories(ctx):
+    rng = ctx.rng
+    big = ctx.searching or not ctx.quick
+    n = 600 if big else 120
+    for i in range(n):
+        first = 'refused' if i % 5 == 0 else 'read' if i % 5 == 1 else None
+        h = _gen_history(rng, 1500 if i % 4 else 3000, first=first)
+        _hist_counts(ctx, h)
+        yield 'history', h
+
+
 replay = check_case
 
+
+# HourlyContinuousCollectionImmutable.group_by_month over more than one month (known finding
+# C03-immutable-continuous-group-by-month, repaired by fixes/C03_6_immutable_month_groups.patch)
+IMMUTABLE_MONTH_INPUT = {'objs': [{'kind': 'cont', 'imm': True, 't': [1, 31, 0, 2, 1, 23, 1, False],
+                                   'vals': [float(i) for i in range(48)]}],
+                         'ops': [[0, 'group', 'day'], [0, 'group', 'month']]}
 
 ORACLE_CORPUS = [
     ('partition', {'coll': 'cont', 'by': 'month', 't': [1, 30, 0, 3, 2, 23, 1, False]}),
@@ -863,6 +2048,8 @@ ORACLE_CORPUS = [
     ('stats_of_groups', {'coll': 'cont', 'iv': 'daily', 'stat': 'total', 'p': 0, 't': [12, 26, 0, 1, 3, 23, 1, False]}),
     ('daily_month', {'leap': True, 'doys': [59, 60, 61, 335, 336, 366]}),
     ('daily_month', {'leap': False, 'doys': [59, 60, 61, 334, 335, 365]}),
+    ('daily_month', {'leap': True, 'doys': [31, 32, 59, 60, 61, 62, 366], 'vals': [7.0, 9.0, 3.0, 8.0, 5.0, 1.0, 2.0]}),
+    ('history', IMMUTABLE_MONTH_INPUT),
     ('order_stats', {'vals': [4.0, 1.0, 2.0, 3.0], 'p': 25, 'p2': 60, 'count': 2}),
     ('order_stats', {'vals': [2.0, 2.0, 1.0, 2.0, 1.0], 'p': 50, 'p2': 50, 'count': 5}),
 ]
@@ -915,7 +2102,8 @@ def _oracle_cases(ctx):
         doys = sorted(rng.sample(range(1, n + 1), rng.choice([1, 3, 30, 200, n])))
         if rng.random() < 0.3:
             doys += [n] if n not in doys else []
-        yield 'daily_month', {'leap': leap, 'doys': doys}
+        _, vals = _gen_values(rng, len(doys))          # not in ascending order inside a month
+        yield 'daily_month', {'leap': leap, 'doys': doys, 'vals': vals}
     for _ in range(20000 if big else 1000):
         n = rng.choice([1, 2, 3, 4, 5, 8, 9, 24, 25, rng.randrange(1, 200)])
         _, vals = _gen_values(rng, n)
@@ -925,10 +2113,31 @@ def _oracle_cases(ctx):
 
 
 def oracle(ctx):
-    run_oracle_cases(ctx, _oracle_cases(ctx), check_case)
+    def enough():
+        return ctx.searching and sum(1 for f in ctx.failures if not _is_open_finding(f['sig'])) >= 8
+
+    def until_enough(gen):
+        for c in gen:
+            if enough():
+                return
+            yield c
+    run_oracle_cases(ctx, until_enough(_oracle_cases(ctx)), check_case)
+    seen_open = [0]
+
+    def capped(op, inp):
+        res = check_case(op, inp)
+        if res and _is_open_finding(res.get('sig') or {}):
+            seen_open[0] += 1
+            ctx.count('hist:open-finding-hit')
+            if seen_open[0] > 2:
+                return None
+        return res
+    run_oracle_cases(ctx, until_enough(_oracle_histories(ctx)), capped)
+    if not enough() and len(ctx.failures) < 200:
+        _oracle_process_orders(ctx)
 
 
-LEVEL_TEXT = ('Machine-checked Lean 4 theorems (27) over an executable, value-polymorphic model of the grouping code: '
+LEVEL_TEXT = ('Machine-checked Lean 4 theorems (33) over an executable, value-polymorphic model of the grouping code: '
               'the datetime-keyed groups by day, month and month-per-hour (all 12 timesteps; key list proved '
               'duplicate-free and complete for grid date-times) hold at each key exactly the values whose own datetime '
               'has that key, in collection order, and their concatenation is a permutation of the data (nothing lost, '
@@ -942,7 +2151,13 @@ LEVEL_TEXT = ('Machine-checked Lean 4 theorems (27) over an executable, value-po
               'interpolation between order statistics with p=0 -> min, p=100 -> max, p=50 -> median, min <= percentile '
               '<= max, monotone in p; highest/lowest values = first count of the sort with distinct consistent indices '
               'and stable order of ties; daily collections are grouped by the calendar month of their day (all 365+366 '
-              'days). The model is compared with the real classes on structure-directed inputs on every run; an '
+              'days). Object state machine (lazy _datetimes slot of continuous collections, values setter, item '
+              'assignment, convert_to_culled_timestep, refused operations, immutable twins): reads are pure and '
+              'order-independent, a refused operation leaves every observation unchanged, and after EVERY history '
+              'every read answers as on a freshly constructed object with the final public state (unconditional for '
+              'discontinuous and daily collections; for continuous ones under grid-faithfulness of culling, proved '
+              'for the unchanged timestep). The model is compared with the real classes on structure-directed inputs '
+              'and on operation histories, step by step, on every run; an '
               'independent oracle regroups every value by its stdlib datetime.')
 LEVEL_NOTE = ('Trusted: Lean kernel; axioms propext/Classical.choice/Quot.sound only; the correspondence run '
               '(agreement on generated inputs only); the AP and Cal models (C04, C08); Python sorted()/OrderedDict '
